@@ -38,6 +38,7 @@ Accepts(ev) ==
          /\ (ev.chk = 0 \/
              (/\ G("C13", "ObserversAgreeWithSequence_Slot1", ev.obs[1] = Expected(kind, st[1]))
               /\ G("C13", "ObserversAgreeWithSequence_Slot2", OneSlot \/ ev.obs[2] = Expected(kind, st[2]))
+              /\ G("C13", "ConstObserversAgreeWithSequence", Has(ev, "cobs") => (ev.cobs[1] = Expected(kind, st[1]) /\ (OneSlot \/ ev.cobs[2] = Expected(kind, st[2]))))
               /\ G("C13", "EqualityAgrees", kind = "vector" => ev.eq = B(st[1] = st[2]))))
     [] ev.e \in {"Ctor", "Dtor", "Assign", "Alloc", "Dealloc", "Free", "OpBegin"} -> TRUE     \* ledger events: C16
     [] ev.e = "OwnerGone" -> TRUE
